@@ -67,6 +67,8 @@ def main():
         shutil.move(os.path.join(wt, "seed"), outroot)
     sd = os.path.join(outroot, variant)
     meta = {"property": prop, "variant": variant, "evaluated_at": time.strftime("%Y-%m-%dT%H:%M:%SZ", time.gmtime())}
+    rc, out = sh("git rev-parse --short HEAD", cwd=ROOT)
+    meta["verif_commit"] = out.strip()
     patch = os.path.join(sd, "patch.diff")
     if not os.path.exists(patch):
         print("no patch at", patch)
@@ -155,6 +157,22 @@ def main():
     # 3. store
     dst = os.path.join(DEST, "%s-%s" % (prop, variant))
     os.makedirs(dst, exist_ok=True)
+    prev = os.path.join(dst, "meta.json")
+    if os.path.exists(prev):
+        try:
+            old = json.load(open(prev))
+            hist = old.pop("history", [])
+            hist.append({"verif_commit": old.get("verif_commit"), "evaluated_at": old.get("evaluated_at"), "caught_by": old.get("caught_by"), "inconclusive": old.get("inconclusive")})
+            meta["history"] = hist
+            # a run restricted to some checks keeps the other results of the previous run
+            if checks:
+                merged = dict(old.get("checks", {}))
+                merged.update(results)
+                meta["checks"] = merged
+                meta["caught_by"] = sorted(k for k, v in merged.items() if v["violation"])
+                meta["inconclusive"] = sorted(k for k, v in merged.items() if v["exit"] == 2)
+        except Exception:
+            pass
     shutil.copy(patch, os.path.join(dst, "patch.diff"))
     if demo:
         shutil.copy(demo, os.path.join(dst, os.path.basename(demo)))
